@@ -51,7 +51,8 @@ def case_hash(case):
 # ----------------------------------------------------------------------------- known findings
 
 def load_known():
-    p = os.path.join(VERIF, 'known_findings.json')
+    # (triage only: VERIF_KNOWN_FILE points at an edited copy, e.g. to see what an open entry is hiding)
+    p = os.environ.get('VERIF_KNOWN_FILE') or os.path.join(VERIF, 'known_findings.json')
     if not os.path.exists(p):
         return []
     with open(p) as f:
